@@ -60,6 +60,22 @@ def gen_cases(tier, seed, ctx):
             y = copy.deepcopy(z); y.chunks[k]['stored'] = st; y.chunks[k]['comp_len'] = len(st)
             for bs in (5, 64, 4096): add('recompressed-other-content', y.build(), [bs])
         for s in ([1], [13], [4096]): add('valid', b, s)
+    # chunks whose STORED size exceeds libzstd's streaming input block (128 KiB + 3): a reader that decodes such a chunk
+    # piecewise must still hold every byte back until the whole chunk has been verified
+    for zd in (None, FG.text(rnd, 90)):
+        big = rnd.randbytes(150000 if tier == 'quick' else 300000)
+        z = Z.make([FG.text(rnd, 300), big, FG.text(rnd, 200)], comp='zstd', zdict=zd, level=3, full=1, chunk=1)
+        b = z.build(); hl = len(z.header())
+        c1 = z.chunks[1]; c2 = z.chunks[2]
+        start = hl + z.chunks[0]['comp_len'] + c1['comp_len']
+        assert c2['comp_len'] >= 131075 + 1000, c2['comp_len']
+        ln = c2['len']
+        add('valid', b, [ln // 3]); add('valid', b, [100000])
+        for _ in range(6 if tier == 'quick' else 40):
+            pos = start + rnd.randrange(32, c2['comp_len'] - 8)
+            m = bytearray(b); m[pos] ^= 1 << rnd.randrange(8)
+            for bs in (ln // 3, ln, 300 + ln, 4096, ln + 1000):
+                add('bitflip-large-chunk', bytes(m), [bs], good=b)
     return cases
 
 def nontrivial(r):
